@@ -97,6 +97,11 @@ def _scene(d, kind):
         labels = np.stack([rng.permutation(labels[0]) for _ in range(F)])
         sp = np.stack([prototypes(rng, K, D, True)[0] for _ in range(F)])   # (F,K,D)
         se, _ = prototypes(rng, K, E, False)
+        if d.epoch >= 3 and d.aux(35).integers(0, 5) == 0:
+            aux = d.aux(36)
+            sp = np.stack([np.eye(D)[aux.permutation(D)[:K]] *
+                           np.exp(2j * np.pi * aux.uniform(size=(K, 1))) for _ in range(F)])
+            case.meta['prototypes'] = 'coordinate-directions'
         obs = np.take_along_axis(sp, labels[..., None], axis=1) + \
             eps * gen.cnormal(rng, (F, T, D))
         obs = obs * (10 ** rng.uniform(-span, span, size=(F, T, 1)) *
@@ -113,6 +118,23 @@ def _scene(d, kind):
         labels = class_labels(d, rng, K, D)
         N = labels.shape[0]
         p, maxcos = prototypes(rng, K, D, complex_)
+        if d.epoch >= 3 and d.aux(35).integers(0, 5) == 0:
+            # "orthonormal in the limit": K of the D coordinate directions
+            # (a source seen by one sensor only), exact zeros elsewhere
+            aux = d.aux(36)
+            p = np.eye(D)[aux.permutation(D)[:K]].astype(p.dtype)
+            if complex_:
+                p = p * np.exp(2j * np.pi * aux.uniform(size=(K, 1)))
+            else:
+                p = p * aux.choice([-1.0, 1.0], size=(K, 1))
+            case.meta['prototypes'] = 'coordinate-directions'
+            # in half of these cases without any perturbation / blur (where the
+            # model is defined on rank-one class data): exact zeros stay exact
+            if kind in ('cacgmm', 'cwmm', 'vmfmm') and aux.integers(0, 2):
+                eps = 0.0
+                if aux.integers(0, 2):
+                    beta = 0.0
+                case.meta.update(eps=eps, beta=beta)
         if kind == 'gmm':
             y = 5 * p[labels] + eps * rng.normal(size=(N, D))
         elif kind == 'vmfmm':
